@@ -492,7 +492,64 @@ def rule_writeback(run):
     _r.run_writeback_rule(run, "F-WRITEBACK")   # operands rewritten by a traversal (alias redirection) are stored back, every field
 
 
-RULES = [rule_rows, rule_hops, rule_tokens, rule_exhaustive, rule_casts, rule_flags, rule_siblings, rule_widths, rule_intarith, rule_ext, rule_castmatrix, rule_tracer_tables, rule_resize, rule_views, rule_alias, rule_backend_sites, rule_cleanup, rule_ctor_domain, rule_div_wrap, rule_trial, rule_writeback, rule_delegation]
+_OP_DUNDERS = {f"__{p}{n}__" for n in ("add", "sub", "mul", "floordiv", "truediv", "mod", "and", "or", "xor", "lshift", "rshift", "matmul", "pow")
+               for p in ("", "r")} | {f"__{n}__" for n in ("eq", "ne", "lt", "le", "gt", "ge", "neg", "pos", "invert", "abs", "bool", "index", "int")}
+_STUBBED = ["cohdl/_core/_bit.py", "cohdl/_core/_bit_vector.py", "cohdl/_core/_unsigned.py", "cohdl/_core/_signed.py",
+            "cohdl/_core/_integer.py", "cohdl/_core/_boolean.py", "cohdl/std/_fixed.py"]
+
+
+def rule_stub(run):
+    """The .pyi stubs are the documented operator surface of the value types.  An operator the stub declares and
+    neither the implementation class nor a repo-resolved base defines makes `int <op> value` a TypeError
+    instead of the documented value (F62: Integer.__rmul__/__rmod__)."""
+    import os
+    run.begin("C02.stub", "every operator method the type stub documents for a value type is defined by the class or a resolved base", floor=60)
+    idx = run.idx
+
+    def defined(mod, cname, seen):
+        """operator names defined by class cname of mod or its resolvable bases"""
+        if (mod.rel, cname) in seen:
+            return set()
+        seen.add((mod.rel, cname))
+        try:
+            c = mod.cls(cname)
+        except AnalysisError:
+            return set()
+        out = {n.name for n in c.body if isinstance(n, (ast.FunctionDef, ast.AsyncFunctionDef))}
+        out |= {t.id for n in c.body if isinstance(n, ast.Assign) for t in n.targets if isinstance(t, ast.Name)}
+        for b in c.bases:
+            bn = dotted(b)
+            if not bn:
+                continue
+            bn = bn.split(".")[-1]
+            if any(isinstance(n, ast.ClassDef) and n.name == bn for n in mod.tree.body):
+                out |= defined(mod, bn, seen)
+            else:
+                r = idx.resolve_import(mod, bn)
+                if r:
+                    out |= defined(r[0], r[1], seen)
+        return out
+
+    for rel in _STUBBED:
+        mod = idx.mod(rel)
+        stub = os.path.join(idx.repo, rel + "i")
+        if not os.path.exists(stub):
+            raise AnalysisError(f"anchor vanished: stub {rel}i")
+        st = ast.parse(open(stub, encoding="utf-8").read())
+        for c in st.body:
+            if not isinstance(c, ast.ClassDef):
+                continue
+            if not any(isinstance(n, ast.ClassDef) and n.name == c.name for n in mod.tree.body):
+                continue
+            have = defined(mod, c.name, set())
+            for n in c.body:
+                if isinstance(n, ast.FunctionDef) and n.name in _OP_DUNDERS:
+                    run.ob(n.name in have, f"{c.name}.{n.name}", file=rel, line=mod.cls(c.name).lineno, detail="stub-implemented",
+                           expected="documented operator is defined", found="defined" if n.name in have else f"declared in {rel}i:{n.lineno}, not defined")
+    run.end()
+
+
+RULES = [rule_rows, rule_hops, rule_tokens, rule_exhaustive, rule_casts, rule_flags, rule_siblings, rule_widths, rule_intarith, rule_ext, rule_castmatrix, rule_tracer_tables, rule_resize, rule_views, rule_alias, rule_backend_sites, rule_cleanup, rule_ctor_domain, rule_div_wrap, rule_trial, rule_writeback, rule_delegation, rule_stub]
 
 LEVEL = "other"
 EXPLANATION = (
